@@ -4,7 +4,7 @@ from _contracts import *
 L = "lib/melvm/src/lib.rs"
 O = "lib/melvm/src/opcode.rs"
 UNIT = Unit(
-    name="codec", uses=None,
+    name="codec", lemma_obs=['lemma_roundtrip', 'lemma_dec_then_enc'], uses=None,
     prelude=["core.rs", "raw.rs", "melvm_types.rs"],
     lemmas=["sums.rs", "weight.rs", "codec.rs"],
     items=[
